@@ -16,27 +16,28 @@ def executable_lines(path):
     todo = [code]
     while todo:
         c = todo.pop()
-        for _, _, ln in c.co_lines():
-            if ln is not None:
-                lines.add(ln)
+        if c.co_flags & 0x1:      # CO_OPTIMIZED: a function body (module and class bodies run at import time)
+            for _, _, ln in c.co_lines():
+                if ln is not None and ln != c.co_firstlineno:      # (the def line itself raises no LINE event on a call)
+                    lines.add(ln)
         for k in c.co_consts:
             if isinstance(k, types.CodeType):
                 todo.append(k)
     # a def / class line and docstrings execute at import time, which happens before the monitor is on: only lines inside
     # function bodies are of interest -> drop lines that belong to the module level code object itself
-    top = {ln for _, _, ln in code.co_lines() if ln is not None}
-    return lines - top
+    return lines
 
 
-def main(checks):
+def main(checks, report_only=False):
     shutil.rmtree(COPY, ignore_errors=True)
-    shutil.rmtree(COVDIR, ignore_errors=True)
     os.makedirs(COPY)
     subprocess.run('git -C /repo archive --format=tar HEAD | tar -x -C %s' % COPY, shell=True, check=True)
-    env = dict(os.environ, VERIF_REPO=COPY, VERIF_LINECOV='1')
-    for c in checks:
-        r = subprocess.run(['/venv/bin/python', '-m', 'vmon', 'check', c], cwd=V, env=env, capture_output=True, text=True)
-        print(c, 'exit', r.returncode, flush=True)
+    if not report_only:
+        shutil.rmtree(COVDIR, ignore_errors=True)
+        env = dict(os.environ, VERIF_REPO=COPY, VERIF_LINECOV='1')
+        for c in checks:
+            r = subprocess.run(['/venv/bin/python', '-m', 'vmon', 'check', c], cwd=V, env=env, capture_output=True, text=True)
+            print(c, 'exit', r.returncode, flush=True)
     seen = set()
     for f in glob.glob(os.path.join(COVDIR, '*.txt')):
         seen.update(l.strip() for l in open(f) if l.strip())
@@ -53,4 +54,6 @@ def main(checks):
 
 
 if __name__ == '__main__':
-    main(sys.argv[1:] or ['C%02d' % i for i in range(1, 17)])
+    ro = '--report-only' in sys.argv
+    args = [a for a in sys.argv[1:] if a != '--report-only']
+    main(args or ['C%02d' % i for i in range(1, 17)], ro)
